@@ -747,6 +747,34 @@ func (v *V) addModifies(e *Env, m string, out map[string][]string) {
 
 func (v *V) loopSpec(fr *Frame, s ast.Stmt) (*LoopSpec, int) {
 	if fr != v.top {
+		// a loop of an inlined callee: only an unroll bound of the callee's own contract carries
+		// over (it mentions no names); invariants do not
+		if fr.fi == nil || fr.fi.body == nil || fr.fi.pkg == nil {
+			return nil, -1
+		}
+		fs := v.prog.contracts.Funcs[fr.fi.pkg.path+"."+fr.fi.key]
+		if fs == nil {
+			return nil, -1
+		}
+		n, found := 0, -1
+		ast.Inspect(fr.fi.body, func(x ast.Node) bool {
+			switch x.(type) {
+			case *ast.FuncLit:
+				return false
+			case *ast.ForStmt, *ast.RangeStmt:
+				if x == ast.Node(s) {
+					found = n
+				}
+				n++
+			}
+			return true
+		})
+		if found < 0 {
+			return nil, -1
+		}
+		if ls := fs.Loops[found]; ls != nil && ls.Unroll > 0 && len(ls.Invariants) == 0 {
+			return &LoopSpec{Unroll: ls.Unroll}, found
+		}
 		return nil, -1
 	}
 	ord, ok := v.loopOrd[s]
